@@ -2,7 +2,8 @@
    All clauses are stated over the arena model: same address after reclaiming, in-place growth of
    the newest block (upwards), opt-outs, non-last blocks untouched, invariant kept. *)
 From Coq Require Import ZArith List Bool.
-From BS Require Import Word BumpSpec ChunkSpec Arena ArenaInv ArenaStats ArenaMisc ArenaMem ArenaMem2.
+From BS Require Import Word BumpSpec ChunkSpec Arena ArenaInv ArenaStats ArenaMisc ArenaMem ArenaMem2 LibRefine.
+From BS.gen Require LibArith.
 Import ListNotations.
 Open Scope Z_scope.
 
@@ -54,6 +55,14 @@ Theorem C13_grow_newest_in_place_up :
              o_events (snd (step c s0 (OGrow h ws b nsize nalign zeroed) r)) = [].
 Proof. exact grow_newest_in_place_up_step. Qed.
 
+(* reclaiming the newest block re-aligns the position with `align_pos` of the CURRENT src/lib.rs
+   (regenerated on every run): it computes the model's Arena.align_posZ *)
+Theorem C13_realign_is_the_code :
+  forall upb m pos,
+  valid_min_align m -> 0 <= pos -> pos + m - 1 < W ->
+  LibArith.align_pos upb m pos = Ok (align_posZ upb m pos).
+Proof. exact align_pos_refines. Qed.
+
 Print Assumptions C13_dealloc_then_alloc_same_address_up.
 Print Assumptions C13_grow_newest_in_place_up.
 Print Assumptions C13_dealloc_optout_keeps_stats.
@@ -61,3 +70,4 @@ Print Assumptions C13_nonlast_dealloc_keeps_everything.
 Print Assumptions C13_without_shrink_fit_keeps_state.
 Print Assumptions C13_no_shrink_setting_fit_keeps_state.
 Print Assumptions C13_dealloc_keeps_invariant.
+Print Assumptions C13_realign_is_the_code.
